@@ -16,6 +16,8 @@ import (
 	"testing"
 	"time"
 
+	hclog "github.com/hashicorp/go-hclog"
+	plugin "github.com/hashicorp/go-plugin"
 	"github.com/hashicorp/go-plugin/verifharness/sched"
 	"github.com/hashicorp/go-plugin/verifharness/vp"
 )
@@ -26,6 +28,9 @@ type lkCase struct {
 	TLS    string   `json:"tls"`
 	Launch string   `json:"launch"`
 	Ops    []string `json:"ops"`
+	// KilledByOther: before this client's Kill, a second client reattaches to the plugin and kills it (gracefully);
+	// this client sees its plugin exit, and is killed afterwards
+	KilledByOther bool `json:"killed_by_other,omitempty"`
 }
 
 var goroutineHdr = regexp.MustCompile(`(?m)^goroutine (\d+) \[`)
@@ -200,6 +205,20 @@ func runLeakCase(c lkCase, bin, base string) map[string]interface{} {
 		}
 	}
 	out["ops_ok"] = ok
+	if c.KilledByOther {
+		if rc := p.Client.ReattachConfig(); rc != nil {
+			other := plugin.NewClient(&plugin.ClientConfig{HandshakeConfig: p.Config.HandshakeConfig, Plugins: p.Config.Plugins, VersionedPlugins: p.Config.VersionedPlugins,
+				Reattach: rc, Logger: hclog.NewNullLogger(), AllowedProtocols: p.Config.AllowedProtocols, TLSConfig: p.Config.TLSConfig})
+			if _, err := other.Client(); err != nil {
+				out["other_err"] = err.Error()
+			}
+			other.Kill()
+			for i := 0; i < 300 && !p.Client.Exited(); i++ {
+				time.Sleep(10 * time.Millisecond)
+			}
+			out["exited_before_kill"] = p.Client.Exited()
+		}
+	}
 	t0 := time.Now()
 	p.Client.Kill()
 	out["kill_ms"] = time.Since(t0).Milliseconds()
